@@ -39,20 +39,24 @@ func Execute(ctx context.Context, strategy ExecutionStrategy, members []Member) 
 		return ExecuteAny(ctx, members)
 	case ExecutionStrategyOne:
 		res, i, err := ExecuteOne(ctx, members)
-		allRes := make([]proto.Message, len(members))
-		allRes[i] = res
-		return allRes, err
+		return singleResult(len(members), i, res), err
 	case ExecutionStrategyFast:
 		res, i, err := ExecuteFast(ctx, members)
-		allRes := make([]proto.Message, len(members))
-		allRes[i] = res
-		return allRes, err
+		return singleResult(len(members), i, res), err
 	case ExecutionStrategyRace:
 		res, i, err := ExecuteRace(ctx, members)
-		allRes := make([]proto.Message, len(members))
-		allRes[i] = res
-		return allRes, err
+		return singleResult(len(members), i, res), err
 	}
+}
+
+// singleResult returns a slice of n results where only the result at index i is populated.
+// With no members there is no index to populate and the returned slice is empty.
+func singleResult(n, i int, res proto.Message) []proto.Message {
+	allRes := make([]proto.Message, n)
+	if i < n {
+		allRes[i] = res
+	}
+	return allRes
 }
 
 // ExecuteAll executes all the member functions in parallel,
